@@ -438,6 +438,7 @@ Fixpoint flip_tags (tags : list tag) (rest all : list N) : list tag :=
 Definition sx_wop (x : sx) : option tag :=
   match x with
   | SL [ty; ts; b; SZ _] => sx_tag (SL [ty; ts; b])
+  | SL [ty; ts; b; SZ _; SZ _] => sx_tag (SL [ty; ts; b])   (* (type ts body gap capmode) *)
   | _ => None
   end.
 Fixpoint sx_wops (l : list sx) : option (list tag) :=
@@ -486,6 +487,17 @@ Definition run_c09 (c : sx) : sx :=
                    end in
           SL [SB wire; SL writes; obs_demux r]
       | _, _, _ => bad_case
+      end
+  | SL [SZ 7%Z; SZ hv; SZ ha; SL wops; SL szs] =>
+      (* history with zero-copy bodies: every body is a sub-slice (with spare capacity) of one
+         caller buffer holding all bodies back to back; the muxer only reads caller memory, so
+         the file is the one of the original frames -- in the model values are persistent *)
+      match sx_wops wops, sx_Ns szs with
+      | Some tags, Some sizes =>
+          let wire := mux (zbool hv) (zbool ha) tags in
+          SL [SB wire; SL (map (fun w => sN (lenN w)) (mux_writes (zbool hv) (zbool ha) tags));
+              obs_demux (demux (S (length tags)) (mk_stream wire sizes (-1) (-1)))]
+      | _, _ => bad_case
       end
   | SL [SZ 3%Z; SB wire; SL szs; SZ cut; SZ fault; SL ops] =>
       match sx_Ns szs with
